@@ -20,6 +20,7 @@ import (
 	"net/http"
 	"runtime/debug"
 	"sync"
+	"unsafe"
 
 	"verif.local/engine/vsched"
 )
@@ -103,7 +104,11 @@ type stream struct {
 	onHeaders  func(x *Exchange)
 	flushCount int
 	stalled    bool // the client does not read and the connection's buffers are full
+	srvCtxID   uintptr
 }
+
+//go:norace
+func (st *stream) id() uintptr { return uintptr(unsafe.Pointer(st)) }
 
 type hdrProbe struct{ st *stream }
 
@@ -145,7 +150,7 @@ func WithCapture(ctx context.Context, dst **Exchange) context.Context {
 //
 //go:norace
 func (f *Fabric) RoundTrip(req *http.Request) (*http.Response, error) {
-	vsched.Yield("net.send")
+	vsched.YieldObjs("net.send", []uintptr{uintptr(unsafe.Pointer(f)), vsched.CtxID(req.Context())}) // exchanges are numbered in start order; the request context is polled
 	var body []byte
 	if req.Body != nil {
 		b, err := io.ReadAll(req.Body)
@@ -182,8 +187,11 @@ func (f *Fabric) RoundTrip(req *http.Request) (*http.Response, error) {
 	if h == nil {
 		return nil, fmt.Errorf("dial tcp %s: connect: connection refused", req.URL.Host)
 	}
-	srvCtx, srvCancel := context.WithCancel(context.Background())
-	st := &stream{x: x, header: http.Header{}, reqCtx: req.Context(), srvCancel: srvCancel, onHeaders: f.OnHeaders}
+	srvCtx, realCancel := context.WithCancel(context.Background())
+	srvID := vsched.CtxID(srvCtx)
+	srvCancel := func() { realCancel() }
+	_ = srvID
+	st := &stream{x: x, header: http.Header{}, reqCtx: req.Context(), srvCancel: srvCancel, onHeaders: f.OnHeaders, srvCtxID: srvID}
 	x.st = st
 	sreq, err := http.NewRequestWithContext(srvCtx, req.Method, req.URL.String(), bytes.NewReader(body))
 	if err != nil {
@@ -197,7 +205,7 @@ func (f *Fabric) RoundTrip(req *http.Request) (*http.Response, error) {
 	sreq.ContentLength = int64(len(body))
 	w := &ResponseWriter{st: st}
 	vsched.Go("memnet.serve "+req.Method+" "+req.URL.Path, func() { serve(h, w, sreq) })
-	vsched.Block("net.await-headers", hdrProbe{st})
+	vsched.BlockObjs("net.await-headers", hdrProbe{st}, []uintptr{st.id(), vsched.CtxID(req.Context())}, true)
 	st.mu.Lock()
 	defer st.mu.Unlock()
 	if !st.hdrOut {
@@ -207,6 +215,7 @@ func (f *Fabric) RoundTrip(req *http.Request) (*http.Response, error) {
 		}
 		st.rclosed = true
 		x.ClientGone = true
+		vsched.TouchAll()
 		srvCancel()
 		return nil, req.Context().Err()
 	}
@@ -232,6 +241,7 @@ func serve(h http.Handler, w *ResponseWriter, r *http.Request) {
 				panic(v)
 			}
 			vsched.RecordPanic("http handler "+r.Method+" "+r.URL.Path, v, debug.Stack())
+			vsched.TouchAll()
 			w.st.mu.Lock()
 			w.st.x.Panicked = true
 			w.st.readErr = io.ErrUnexpectedEOF
@@ -315,6 +325,7 @@ func (p writeProbe) Ready() bool { return !p.st.stalled || p.st.rclosed }
 //go:norace
 func (x *Exchange) Stall(on bool) {
 	if x.st != nil {
+		vsched.TouchAll()
 		x.st.stalled = on
 	}
 }
@@ -322,7 +333,7 @@ func (x *Exchange) Stall(on bool) {
 //go:norace
 func (w *ResponseWriter) Write(b []byte) (int, error) {
 	st := w.st
-	vsched.Block("net.write", writeProbe{st})
+	vsched.BlockObj("net.write", writeProbe{st}, st.id(), true)
 	if !st.wroteHdr {
 		w.WriteHeader(http.StatusOK)
 	}
@@ -343,7 +354,7 @@ func (w *ResponseWriter) Write(b []byte) (int, error) {
 //go:norace
 func (w *ResponseWriter) Flush() {
 	st := w.st
-	vsched.Yield("net.flush")
+	vsched.YieldObj("net.flush", st.id(), true)
 	st.mu.Lock()
 	defer st.mu.Unlock()
 	if st.wclosed {
@@ -357,7 +368,7 @@ func (w *ResponseWriter) Flush() {
 func (w *ResponseWriter) finish() {
 	st := w.st
 	if !vsched.Exiting() {
-		vsched.Yield("net.handler-return")
+		vsched.YieldObjs("net.handler-return", append([]uintptr{st.id()}, vsched.CtxFootprint(st.srvCtxID)...))
 	}
 	st.mu.Lock()
 	if !st.wclosed {
@@ -380,7 +391,7 @@ func (b *body_) Read(p []byte) (int, error) {
 	if len(p) == 0 {
 		return 0, nil
 	}
-	vsched.Block("net.read", readProbe{st})
+	vsched.BlockObjs("net.read", readProbe{st}, []uintptr{st.id(), vsched.CtxID(st.reqCtx)}, true)
 	st.mu.Lock()
 	defer st.mu.Unlock()
 	if st.rclosed {
@@ -403,7 +414,7 @@ func (b *body_) Read(p []byte) (int, error) {
 //go:norace
 func (b *body_) Close() error {
 	st := b.st
-	vsched.Yield("net.close-body")
+	vsched.YieldObjs("net.close-body", append([]uintptr{st.id()}, vsched.CtxFootprint(st.srvCtxID)...))
 	st.mu.Lock()
 	already := st.rclosed
 	st.rclosed = true
@@ -438,6 +449,7 @@ func (x *Exchange) BreakStream(err error) {
 	if st == nil {
 		return
 	}
+	vsched.TouchAll()
 	st.mu.Lock()
 	st.readErr = err
 	st.wclosed = true
@@ -453,6 +465,7 @@ func (x *Exchange) CloseFromClient() {
 	if st == nil {
 		return
 	}
+	vsched.TouchAll()
 	st.mu.Lock()
 	st.rclosed = true
 	x.ClientGone = true
